@@ -97,7 +97,13 @@ fn classify_session(drv: &mut SessionDrv, got: &Value, want: &Value, lifecycle: 
         return ("lifecycle-order-violated".into(), detail);
     }
     if lifecycle && (gr == "ok" || gr == "err") && lc != "T" {
-        let sig = if drv.out.broken() { "no-terminal-event-when-close-fails" } else { "no-terminal-event" };
+        let sig = if drv.out.broken() {
+            "no-terminal-event-when-sink-fails"
+        } else if ev.len() <= 1 && drv.out.sent().is_empty() {
+            "no-terminal-event-when-resolve-fails"
+        } else {
+            "no-terminal-event"
+        };
         return (sig.into(), detail);
     }
     if gr == "run" && wr != "run" {
@@ -137,7 +143,7 @@ struct LcWorld {
     _peer: Peer,
 }
 
-fn lc_setup(rt: &Runtime, cap: usize, live: bool, n: usize, fail_at: u64) -> LcWorld {
+fn lc_setup(rt: &Runtime, cap: usize, live: bool, n: usize, fail_at: u64, store_fail: bool) -> LcWorld {
     let mut ops = Ops::new();
     let topic = topic_of("t1");
     let mut peer = rt.block_on(Peer::new(0));
@@ -149,6 +155,7 @@ fn lc_setup(rt: &Runtime, cap: usize, live: bool, n: usize, fail_at: u64) -> LcW
     let logs = BTreeMap::from([(peer.id(), vec![0usize])]);
     rt.block_on(peer.associate(&topic, &logs));
     let store = ProbeStore::new(peer.store.clone());
+    store.set_fail_resolve(store_fail);
     let (event_tx, events_rx) = broadcast::channel(512);
     let (live_tx, live_rx) = mpsc::channel(512);
     let session = TopicLogSync::new_with_capacity(topic, store.clone(), if live { Some(live_rx) } else { None }, event_tx, cap);
@@ -194,6 +201,7 @@ fn replay_lifecycle(rt: &Runtime, b: &Value) -> RunResult {
         init["live"].as_bool().expect("live"),
         init["n"].as_u64().expect("n") as usize,
         init["failAt"].as_u64().expect("failAt"),
+        init["storeFail"].as_bool().unwrap_or(false),
     );
     let mut missing_start = false;
     for (k, s) in b["steps"].as_array().expect("steps").iter().enumerate() {
@@ -477,8 +485,9 @@ fn record_lifecycle(args: &Args, rt: &Runtime) {
         let r = rng.below(3) as usize;
         let fail_at = if rng.chance(1, 3) { rng.range(1, 8) } else { 0 };
         let misbehave = rng.chance(1, 2);
-        let mut w = lc_setup(rt, cap, live, n, fail_at);
-        trace.event(json!({"ev": "Reset", "machine": "lifecycle", "run": run, "cap": cap, "live": live, "n": n, "r": r, "failAt": fail_at}));
+        let store_fail = rng.chance(1, 12);
+        let mut w = lc_setup(rt, cap, live, n, fail_at, store_fail);
+        trace.event(json!({"ev": "Reset", "machine": "lifecycle", "run": run, "cap": cap, "live": live, "n": n, "r": r, "failAt": fail_at, "storeFail": store_fail}));
         // remote script state (mirrors NewRemote / HonestNext of the spec)
         let mut pos = "Have";
         let mut k = 0usize;
@@ -607,13 +616,19 @@ fn record_lifecycle(args: &Args, rt: &Runtime) {
         let (obs, _) = session_obs(&w.drv, &w.ops, w.scheduled, true);
         let ev = obs["ev"].as_array().cloned().unwrap_or_default();
         let lc = lifecycle_state(&ev, true);
-        let case = json!({"run": run, "seed": args.seed, "cap": cap, "live": live, "n": n, "r": r, "failAt": fail_at, "final": obs});
+        let case = json!({"run": run, "seed": args.seed, "cap": cap, "live": live, "n": n, "r": r, "failAt": fail_at, "storeFail": store_fail, "final": obs});
         if w.drv.spun {
             out.violation("C22", "spins-after-stream-closure-in-sync", format!("run {run}: session spins, events {}", obs["ev"]), case.clone());
         } else if lc == "dead" {
             out.violation("C22", "lifecycle-order-violated", format!("run {run}: events {}", obs["ev"]), case.clone());
         } else if w.drv.result.is_some() && lc != "T" {
-            let sig = if w.drv.out.broken() { "no-terminal-event-when-close-fails" } else { "no-terminal-event" };
+            let sig = if w.drv.out.broken() {
+                "no-terminal-event-when-sink-fails"
+            } else if ev.len() <= 1 && w.drv.out.sent().is_empty() {
+                "no-terminal-event-when-resolve-fails"
+            } else {
+                "no-terminal-event"
+            };
             out.violation("C22", sig, format!("run {run}: session returned {:?} with events {}", w.drv.result, obs["ev"]), case.clone());
         } else if ended && !w.drv.over() {
             w.drv.run_until_blocked();
